@@ -96,7 +96,7 @@ class Scheduler:
         return self.results
 
 
-def make_race(prog, max_preempt, break_lock=False, delete_latest=False, empty_archive=False):
+def make_race(prog, max_preempt, break_lock=False, delete_latest=False, empty_archive=False, base=0):
     """delete_latest: the archive holds two versions and the collector deletes the newer one (the backup's basis) while the backup runs."""
     delete_bands = A.fn_by(prog, 'Archive', None, 'delete_bands')
 
@@ -111,10 +111,11 @@ def make_race(prog, max_preempt, break_lock=False, delete_latest=False, empty_ar
             hg = A.put_block(ex, st, Data([(7, 0, sg)]))          # garbage: referenced by no version
             if not empty_archive:
                 # (empty_archive: no version at all, only blocks left behind - the collector remembers "no band" as its baseline)
-                A.put_head(ex, st, 0)
-                A.put_hunk(ex, st, 0, 0, [A.mk_entry(ex, '/', 'Dir', 1, mode=0o755),
-                                           A.mk_entry(ex, '/a', 'File', 10, addrs=[A.mk_addr(ex, ha, 0, sa)], mode=0o644)])
-                A.put_tail(ex, st, 0, 1)
+                # (base: the id of the existing version; 9999 makes the new version the first five-digit one)
+                A.put_head(ex, st, base)
+                A.put_hunk(ex, st, base, 0, [A.mk_entry(ex, '/', 'Dir', 1, mode=0o755),
+                                              A.mk_entry(ex, '/a', 'File', 10, addrs=[A.mk_addr(ex, ha, 0, sa)], mode=0o644)])
+                A.put_tail(ex, st, base, 1)
             files = [B.SrcFile('/', 'Dir', mtime=B.TimeV(1, 0), mode=0o755),
                      B.SrcFile('/a', 'File', cls=1, size=sa, mtime=B.TimeV(10, 0), mode=0o644)]
             ids = VecV([])
